@@ -3,12 +3,26 @@ package main
 import (
 	"bytes"
 	"context"
+	"encoding/binary"
 	"fmt"
+	"io"
+	"os"
+	"sort"
+	"strings"
+	"sync"
 	"time"
 
 	"github.com/PowerDNS/lightningstream/config"
+	"github.com/PowerDNS/lightningstream/snapshot"
+	"github.com/PowerDNS/lightningstream/syncer"
+	"github.com/PowerDNS/lightningstream/syncer/events"
+	"github.com/PowerDNS/lightningstream/syncer/hooks"
+	"github.com/PowerDNS/lightningstream/syncer/receiver"
+	"github.com/PowerDNS/lightningstream/syncer/sweeper"
 	"github.com/PowerDNS/lmdb-go/lmdb"
+	"github.com/PowerDNS/simpleblob"
 	"github.com/PowerDNS/simpleblob/backends/memory"
+	"github.com/sirupsen/logrus"
 )
 
 // sweeperWiring runs the REAL Sync loop with the tomb sweeper enabled (intervals scaled down to milliseconds) on
@@ -138,4 +152,283 @@ func sweeperWiring(out *AreaOut) error {
 		hist(out.Hist, "loop-sweeper-wiring/"+mode)
 	}
 	return nil
+}
+
+// hookReady: the extension hooks of the sync loop (an embedding application feeds additional, non-snapshot updates
+// through OtherUpdateSource and decides through InstanceReady when an instance counts as loaded). A restarted
+// instance whose own snapshot is in the bucket, with a hook that calls the own instance ready only once the
+// update FOLLOWING the snapshot is applied, publishes what its application committed as soon as that update
+// has been applied (C09): nothing else is needed.
+func hookReady(out *AreaOut) error {
+	for _, native := range []bool{true, false} {
+		out.OracleN++
+		env, cleanup, err := newEnv()
+		if err != nil {
+			return err
+		}
+		st := memory.New()
+		now := uint64(time.Now().UnixNano())
+		if err := applyApp(env, native, now, []appOp{{DBI: "app", Key: []byte("old"), Val: []byte("v")}}); err != nil {
+			cleanup()
+			return err
+		}
+		first, err := newSyncer(env, st, syncerOpts{Native: native, Instance: "a"})
+		if err != nil {
+			cleanup()
+			return err
+		}
+		if _, err := first.SendOnce(context.Background(), env); err != nil {
+			cleanup()
+			return err
+		}
+		updCh := make(chan snapshot.Update, 2)
+		hk := hooks.New()
+		hk.OtherUpdateSource = func() <-chan snapshot.Update { return updCh }
+		hk.InstanceReady = func(ni *snapshot.NameInfo) bool { return ni.Kind != snapshot.KindSnapshot }
+		sy, err := newSyncer(env, st, syncerOpts{Native: native, Instance: "a", SyncerOpt: syncer.Options{Hooks: hk}, Mod: func(c *config.Config, lc *config.LMDB) {
+			c.LMDBPollInterval = 2 * time.Millisecond
+			c.StoragePollInterval = 3 * time.Millisecond
+		}})
+		if err != nil {
+			cleanup()
+			return err
+		}
+		ctx, cancel := context.WithCancel(context.Background())
+		done := make(chan error, 1)
+		go func() { done <- sy.Sync(ctx) }()
+		time.Sleep(60 * time.Millisecond) // the own snapshot has been merged by now; the hook said "not ready yet"
+		_ = applyApp(env, native, uint64(time.Now().UnixNano()), []appOp{{DBI: "app", Key: []byte("hook"), Val: []byte("w")}})
+		time.Sleep(30 * time.Millisecond)
+		before, _ := st.List(context.Background(), "")
+		updCh <- snapshot.Update{
+			Snapshot: &snapshot.Snapshot{FormatVersion: 3, CompatVersion: 1, Meta: snapshot.Meta{DatabaseName: dbName, InstanceID: "a"}},
+			NameInfo: snapshot.NameInfo{Kind: "delta", InstanceID: "a", SyncerName: dbName, Timestamp: time.Now()},
+		}
+		published := false
+		for dl := time.Now().Add(3 * time.Second); time.Now().Before(dl) && !published; time.Sleep(10 * time.Millisecond) {
+			ls, _ := st.List(context.Background(), "")
+			names := ls.Names()
+			sort.Strings(names)
+			if len(names) > len(before) {
+				if blob, err := st.Load(context.Background(), names[len(names)-1]); err == nil {
+					if sn, err := snapshot.LoadData(blob); err == nil {
+						ds, _ := decodeSnapDBIs(sn)
+						for _, d := range ds {
+							for _, e := range d.Entries {
+								if d.Name == "app" && string(e.Key) == "hook" {
+									published = true
+								}
+							}
+						}
+					}
+				}
+			}
+		}
+		cancel()
+		select {
+		case <-done:
+		case <-time.After(5 * time.Second):
+		}
+		cleanup()
+		hist(out.Hist, fmt.Sprintf("hook-ready-by-following-update/native=%v", native))
+		if !published {
+			out.Oracle = append(out.Oracle, OracleFailure{"C09", "published-once-hook-says-ready", fmt.Sprintf("native=%v: restarted instance with its own snapshot in the bucket, hooks.InstanceReady accepts the own instance on the first NON-snapshot update (delivered through hooks.OtherUpdateSource and applied): the application's commit made meanwhile was in no uploaded snapshot 3 s later", native), map[string]any{"native": native}})
+		}
+	}
+	return nil
+}
+
+// sweeperIntegerKeys: the real Sweeper on DBIs whose key order is NOT the byte order (MDB_INTEGERKEY: native
+// application DBIs, and the shadow DBIs of integer-key application DBIs), large enough for several write-lock
+// slices (LockDuration 1 ns: the limit trips at every 1000th record): every expired marker goes, nothing else.
+func sweeperIntegerKeys(out *AreaOut) error {
+	for _, native := range []bool{true, false} {
+		for _, n := range []int{2500, 3500} {
+			out.OracleN++
+			env, cleanup, err := swNewEnv()
+			if err != nil {
+				return err
+			}
+			name := "ints"
+			if !native {
+				name = shadowPrefix + "ints"
+			}
+			now := uint64(time.Now().UnixNano())
+			expired, young := now-uint64(49*time.Hour), now-uint64(time.Hour)
+			kind := func(i int) int { return (i*7 + i/1000) % 3 }
+			err = env.Update(func(txn *lmdb.Txn) error {
+				dbi, err := txn.OpenDBI(name, lmdb.Create|lmdb.IntegerKey)
+				if err != nil {
+					return err
+				}
+				for i := 0; i < n; i++ {
+					k := make([]byte, 4)
+					binary.LittleEndian.PutUint32(k, uint32(i*3+1))
+					var v []byte
+					switch kind(i) {
+					case 0:
+						v = swVal(expired-uint64(i%5), 1, nil)
+					case 1:
+						v = swVal(young+uint64(i%5), 1, nil)
+					default:
+						v = swVal(expired, 0, []byte("live"))
+					}
+					if err := txn.Put(dbi, k, v, 0); err != nil {
+						return err
+					}
+				}
+				return nil
+			})
+			if err != nil {
+				cleanup()
+				return err
+			}
+			sw := sweeper.New("verif-ints", config.Sweeper{Enabled: true, RetentionDays: 1, LockDuration: 1, ReleaseDuration: time.Millisecond}, env, swLogger, native)
+			ctx, cancel := context.WithTimeout(context.Background(), 30*time.Second)
+			serr := sw.VerifSweepOnce(ctx)
+			cancel()
+			left, wrong := 0, ""
+			_ = env.View(func(txn *lmdb.Txn) error {
+				dbi, err := txn.OpenDBI(name, 0)
+				if err != nil {
+					wrong = "DBI gone"
+					return nil
+				}
+				for i := 0; i < n; i++ {
+					k := make([]byte, 4)
+					binary.LittleEndian.PutUint32(k, uint32(i*3+1))
+					_, err := txn.Get(dbi, k)
+					switch {
+					case kind(i) == 0 && err == nil:
+						left++
+					case kind(i) != 0 && err != nil && wrong == "":
+						wrong = fmt.Sprintf("entry %d (not an expired marker) is gone", i*3+1)
+					}
+				}
+				return nil
+			})
+			cleanup()
+			hist(out.Hist, fmt.Sprintf("integer-key-dbi/native=%v/records=%d", native, n))
+			in := map[string]any{"native": native, "records": n, "dbi": name, "flags": "MDB_INTEGERKEY", "lock_duration": "1ns"}
+			if serr == nil && left > 0 {
+				out.Oracle = append(out.Oracle, OracleFailure{"C13", "removes-every-expired-marker", fmt.Sprintf("integer-key DBI %s with %d records, pass of several slices ended without error: %d deletion markers 49 h old (retention 1 day) are still there", name, n, left), in})
+			}
+			if wrong != "" {
+				out.Oracle = append(out.Oracle, OracleFailure{"C13", "removes-nothing-else", fmt.Sprintf("integer-key DBI %s with %d records: %s", name, n, wrong), in})
+			}
+		}
+	}
+	return nil
+}
+
+// ---- receiver: an instance that vanishes while its downloader is retrying, and comes back at once ----
+
+type holdLoadStore struct {
+	simpleblob.Interface
+	hold    string
+	started chan struct{}
+	release chan struct{}
+	once    sync.Once
+}
+
+func (s *holdLoadStore) Load(ctx context.Context, name string) ([]byte, error) {
+	if name == s.hold {
+		s.once.Do(func() { close(s.started) })
+		select {
+		case <-s.release:
+		case <-ctx.Done():
+			return nil, ctx.Err()
+		}
+		return nil, os.ErrNotExist // cleaned between listing and download
+	}
+	return s.Interface.Load(ctx, name)
+}
+
+// pauseAtLog parks the goroutine that logs a message containing substr (first time only): the log call is used
+// as a scheduling point of the downloader goroutine
+type pauseAtLog struct {
+	substr  string
+	reached chan struct{}
+	release chan struct{}
+	once    sync.Once
+}
+
+func (h *pauseAtLog) Levels() []logrus.Level { return logrus.AllLevels }
+func (h *pauseAtLog) Fire(e *logrus.Entry) error {
+	if strings.Contains(e.Message, h.substr) {
+		first := false
+		h.once.Do(func() { first = true })
+		if first {
+			close(h.reached)
+			select {
+			case <-h.release:
+			case <-time.After(10 * time.Second):
+			}
+		}
+	}
+	return nil
+}
+
+// receiverReappear (C16): instance "o" has one snapshot S1; its download is in flight when S1 is cleaned and a
+// listing finds the instance gone; the download fails, the downloader looks again and finds nothing to do — and
+// exactly then the instance publishes S2 and a listing notifies the downloader on record. S2 is the newest
+// snapshot of "o": it reaches the merge loop, whatever the downloader was doing at that moment.
+func receiverReappear(out *AreaOut) {
+	out.OracleN++
+	ctx, cancel := context.WithCancel(context.Background())
+	defer cancel()
+	ts := time.Date(2024, 1, 2, 3, 4, 5, 0, time.UTC)
+	s1 := snapshot.Name(dbName, "o", "GX", ts)
+	s2 := snapshot.Name(dbName, "o", "GX", ts.Add(time.Minute))
+	data, _, err := snapshot.DumpData(&snapshot.Snapshot{FormatVersion: 3, CompatVersion: 1})
+	if err != nil {
+		return
+	}
+	mem := memory.New()
+	st := &holdLoadStore{Interface: mem, hold: s1, started: make(chan struct{}), release: make(chan struct{})}
+	hook := &pauseAtLog{substr: "no longer has any snapshots", reached: make(chan struct{}), release: make(chan struct{})}
+	l := logrus.New()
+	l.SetOutput(io.Discard)
+	l.AddHook(hook)
+	r := receiver.New(st, config.Config{StoragePollInterval: time.Hour, StorageRetryInterval: 2 * time.Millisecond, MemoryDownloadedSnapshots: 2, MemoryDecompressedSnapshots: 2},
+		dbName, l, "self", events.New(), hooks.New())
+	wait := func(ch <-chan struct{}) bool {
+		select {
+		case <-ch:
+			return true
+		case <-time.After(5 * time.Second):
+			return false
+		}
+	}
+	_ = mem.Store(ctx, s1, data)
+	if r.RunOnce(ctx, true) != nil || !wait(st.started) {
+		hist(out.Hist, "receiver-reappear/not-reached")
+		return
+	}
+	_ = mem.Delete(ctx, s1)
+	_ = r.RunOnce(ctx, false)
+	close(st.release)
+	if !wait(hook.reached) {
+		// the downloader did not look again (or does not say so): the schedule this scenario is about did not arise
+		close(hook.release)
+		hist(out.Hist, "receiver-reappear/not-reached")
+		return
+	}
+	_ = mem.Store(ctx, s2, data)
+	_ = r.RunOnce(ctx, false)
+	close(hook.release)
+	delivered := false
+	for dl := time.Now().Add(3 * time.Second); time.Now().Before(dl) && !delivered; {
+		if inst, u := r.Next(); inst != "" {
+			delivered = inst == "o" && u.NameInfo.FullName == s2
+			u.Close()
+			break
+		}
+		time.Sleep(10 * time.Millisecond)
+		_ = r.RunOnce(ctx, false) // Receiver.Run keeps listing; the bucket does not change any more
+	}
+	hist(out.Hist, "receiver-reappear/evaluated")
+	if !delivered {
+		out.Oracle = append(out.Oracle, OracleFailure{"C16", "reappearing-instance-delivered", "instance o: snapshot S1 cleaned while its download was in flight, a listing finds the instance gone, the download fails and the downloader finds nothing to do; at that moment the instance publishes S2 and a listing notifies the downloader on record: S2, the newest snapshot of o, was not handed to the merge loop within 3 s of further listings", map[string]any{"s1": s1, "s2": s2}})
+	}
 }
